@@ -23,7 +23,7 @@ package openapi3filter
 //@ spec headerOK(name string, h *openapi3.HeaderRef, in *ResponseValidationInput) bool
 //@ func validateResponseHeader
 //@   modifies *
-//@   preserves @C08 all(openapi3), ResponseValidationInput.Status, ResponseValidationInput.Options, ResponseValidationInput.RequestValidationInput, ResponseValidationInput.Header, RequestValidationInput.*, Options.*, http.Request.Method, routers.Route.*, []string
+//@   preserves @C08 all(openapi3), ResponseValidationInput.Status, ResponseValidationInput.Options, ResponseValidationInput.RequestValidationInput, ResponseValidationInput.Header, ResponseValidationInput.Body, RequestValidationInput.*, Options.*, http.Request.Method, routers.Route.*, []string
 //@   defines (result == nil) <==> headerOK(headerName, headerRef, input)
 
 //@ spec headerGet(h http.Header, k string) string
@@ -40,6 +40,7 @@ package openapi3filter
 //@   ensures @C08 [unresolved-definition] !old(respSkipped(input)) && old(respDefs(input)) != nil && old(len(respDefs(input).m)) > 0 && old(respSelected(input)) != nil && old(respSelected(input).Value) == nil ==> result != nil
 //@   ensures @C08 [every-header-checked] result == nil && !old(respSkipped(input)) && old(respDefs(input)) != nil && old(len(respDefs(input).m)) > 0 && old(respSelected(input)) != nil && old(respSelected(input).Value) != nil ==> forall k string :: old(has(respSelected(input).Value.Headers, k)) && k != headerCT ==> headerOK(k, old(respSelected(input).Value.Headers[k]), input)
 //@   ensures @C08 [undeclared-content-type] !old(respSkipped(input)) && old(respDefs(input)) != nil && old(len(respDefs(input).m)) > 0 && old(respSelected(input)) != nil && old(respSelected(input).Value) != nil && !old(bodyExcluded(input)) && old(len(respSelected(input).Value.Content)) > 0 && lookup(old(respSelected(input).Value.Content), headerGet(old(input.Header), headerCT)) == nil ==> result != nil
+//@   ensures @C08 [body-stays-readable] old(input.Body) != nil ==> input.Body != nil && rdContent[ptr(input.Body)] == old(rdContent[ptr(input.Body)])
 //@   loop 0 invariant fresh(headers) && seenset() == store(keys(headers), headerCT, seenset()[headerCT])
 //@   loop 1 invariant forall k string :: keysPrefix(headers, #i)[k] ==> headerOK(k, response.Headers[k], input)
 //@   option safety-tags C10
@@ -52,9 +53,12 @@ package openapi3filter
 //@   modifies nothing
 //@ func (*ResponseValidationInput).SetBodyBytes
 //@   requires input != nil
-//@   modifies input.Body
+//@   modifies input.Body, rdContent
 //@   ensures result == input
+//@   ensures [readable-copy] input.Body != nil && rdContent[ptr(input.Body)] == bytes(value)
+//@   ensures [other-readers-untouched] forall r ref :: r != ptr(input.Body) && old(allocated(r)) ==> rdContent[r] == old(rdContent[r])
+//@   tag C08
 //@ spec respBodyDecodes(in *ResponseValidationInput) bool
 //@ func decodeBody
 //@   modifies *
-//@   preserves all(openapi3), ResponseValidationInput.Status, ResponseValidationInput.Options, ResponseValidationInput.RequestValidationInput, ResponseValidationInput.Header, RequestValidationInput.*, Options.*, http.Request.Method, routers.Route.*
+//@   preserves all(openapi3), ResponseValidationInput.Status, ResponseValidationInput.Options, ResponseValidationInput.RequestValidationInput, ResponseValidationInput.Header, ResponseValidationInput.Body, RequestValidationInput.*, Options.*, http.Request.Method, routers.Route.*
